@@ -337,6 +337,7 @@ func Run(j *job.Job, s *job.Sink) {
 				s.Violation(c, j.CaseID(c), "C19.result", "pipeline-result-differs", fmt.Sprintf("%d concurrent pipeline runs differ from the sequential result", bad), sets[0], nil)
 			}
 		} else {
+			errorReaders(j, s, c, arrive)
 			st := gen(j.Seed, c*goroutines)
 			seqMs, errs := load(st)
 			if len(errs) > 0 {
@@ -393,6 +394,89 @@ func Run(j *job.Job, s *job.Sink) {
 		if c%100 == 1 {
 			s.Sample(1, map[string]any{"round": c, "kind": "readers", "goroutines": goroutines})
 		}
+	}
+}
+
+// errorReaders: the error accessor has something to read only where Process found errors.
+// A module whose leaves (and empty containers) carry two or three errors of their own -
+// recorded in an order that is not the sorted one - is processed, then 16 goroutines call
+// GetErrors on every entry of the cached tree at once (on each entry itself, not only on
+// the root); each must see what a sequential reader sees, before and after.
+func errorReaders(j *job.Job, s *job.Sink, c int64, arrive func(int)) {
+	r := prng.For(j.Seed, "C19", "errorreaders", c)
+	var b strings.Builder
+	b.WriteString("module zze {\n  namespace \"urn:zze\";\n  prefix zze;\n  container top {\n")
+	n := 20 + r.Intn(40)
+	for k := 0; k < n; k++ {
+		ty := []string{"uint8 { range \"300..400\"; }", "decimal64", "string { length \"5..2\"; }", "nosuchtype", "union { type nosuchmember; type uint8 { range \"0..256\"; } }"}[r.Intn(5)]
+		if !strings.HasSuffix(ty, "}") {
+			ty += ";"
+		}
+		switch r.Intn(4) {
+		case 0:
+			fmt.Fprintf(&b, "    leaf l%d { type %s config maybe; }\n", k, ty)
+		case 1:
+			fmt.Fprintf(&b, "    leaf-list l%d { type %s config maybe; max-elements many; min-elements few; }\n", k, ty)
+		case 2:
+			fmt.Fprintf(&b, "    container l%d { config maybe; }\n", k)
+		default:
+			fmt.Fprintf(&b, "    leaf l%d { type %s mandatory perhaps; config maybe; }\n", k, ty)
+		}
+	}
+	b.WriteString("  }\n}\n")
+	ms := yang.NewModules()
+	if err := ms.Parse(b.String(), "zze.yang"); err != nil {
+		s.Count("error_reader_texts_rejected", 1)
+		return
+	}
+	if errs := ms.Process(); len(errs) == 0 {
+		s.Count("error_reader_sets_without_errors", 1)
+		return
+	}
+	root := yang.ToEntry(ms.Modules["zze"]) // from the cache: Process built it
+	view := func() string {
+		var out strings.Builder
+		walk(root, func(e *yang.Entry) {
+			fmt.Fprintf(&out, "%s:", e.Path())
+			for _, err := range e.GetErrors() {
+				fmt.Fprintf(&out, " [%v]", err)
+			}
+			out.WriteString("\n")
+		})
+		return out.String()
+	}
+	multi := 0
+	walk(root, func(e *yang.Entry) {
+		if len(e.Dir) == 0 && len(e.Errors) >= 2 {
+			multi++
+		}
+	})
+	s.Count("error_reader_entries_with_several_own_errors", int64(multi))
+	before := view()
+	views := make([]string, goroutines)
+	start := make(chan struct{})
+	var wg sync.WaitGroup
+	for g := 0; g < goroutines; g++ {
+		wg.Add(1)
+		go func(g int) {
+			defer wg.Done()
+			<-start
+			arrive(g)
+			views[g] = view()
+		}(g)
+	}
+	close(start)
+	wg.Wait()
+	after := view()
+	bad := 0
+	for g := range views {
+		if views[g] != before {
+			bad++
+		}
+	}
+	s.Count("error_reader_views", goroutines)
+	if bad > 0 || after != before {
+		s.Violation(c, j.CaseID(c), "C19.result", "reader-result-differs", fmt.Sprintf("error accessor: %d of %d concurrent readers saw other error lists than the sequential reader before them; the sequential reader after them agrees with the one before: %v", bad, goroutines, after == before), map[string]string{"zze.yang": b.String()}, nil)
 	}
 }
 
